@@ -205,6 +205,7 @@ func normParts(parts []Part) []any {
 	var merged []Part
 	for _, p := range parts {
 		if p.E == nil {
+			p = Part{Lit: p.source()} // the parsed tree holds the literal as written (markup included)
 			if p.Lit == "" {
 				continue
 			}
